@@ -44,6 +44,7 @@ type c01Event struct {
 	DefScope bool              `json:"def_scope,omitempty"` // root monitor created without a scope (the processor's default: global scope) ...
 	Edit     map[string]bool   `json:"edit,omitempty"`      // ... whose Scope() is then narrowed / widened by its owner before the event is added
 	Children []c01Event        `json:"children,omitempty"`
+	eff      map[string]bool   // reuse mode: the definitions of the shared scope object at the time the event was added
 	PauseNs  int               `json:"pause,omitempty"`
 }
 
@@ -53,12 +54,14 @@ type c01Reload struct {
 }
 
 type c01Plan struct {
-	Reload  *c01Reload        `json:"reload,omitempty"`   // Finish(), Reset(), load this rule set, Start(), second batch of events
-	ViaECAL bool              `json:"via_ecal,omitempty"` // rules are declared as ECAL sinks (attribute -> rule conversion in the interpreter)
-	Workers int               `json:"workers"`
-	Rules   []c01Rule         `json:"rules"`
-	Scopes  []map[string]bool `json:"scopes"`
-	Clients [][]c01Event      `json:"clients"`
+	ReuseScopes bool              `json:"reuse_scope_objects,omitempty"` // every client keeps one RuleScope object per scope and uses it for all its cascades, editing it in between (all its events wait)
+	Flood       int               `json:"kind_flood,omitempty"`          // that many events of pairwise distinct, non-matching kinds are added before the clients start
+	Reload      *c01Reload        `json:"reload,omitempty"`              // Finish(), Reset(), load this rule set, Start(), second batch of events
+	ViaECAL     bool              `json:"via_ecal,omitempty"`            // rules are declared as ECAL sinks (attribute -> rule conversion in the interpreter)
+	Workers     int               `json:"workers"`
+	Rules       []c01Rule         `json:"rules"`
+	Scopes      []map[string]bool `json:"scopes"`
+	Clients     [][]c01Event      `json:"clients"`
 }
 
 func init() {
@@ -83,6 +86,9 @@ func c01GenScopePath(r *simrt.RNG) string {
 
 // scopeMap is the scope definition of the cascade the event belongs to.
 func (e *c01Event) scopeMap(p *c01Plan) map[string]bool {
+	if e.eff != nil {
+		return e.eff
+	}
 	if !e.DefScope {
 		return p.Scopes[e.Scope]
 	}
@@ -118,9 +124,11 @@ func c01GenVal(r *simrt.RNG, forRule bool, containers bool) c01Val {
 	case x < 90 && forRule:
 		return c01Val{T: "regex", S: []string{"^a", "b$", "^[0-9]+$", "a|1"}[r.Intn(4)]}
 	case x < 95 && containers:
-		return c01Val{T: "list", N: float64(1 + r.Intn(2))}
+		// [n] or ["n"]: different values that read alike
+		return c01Val{T: "list", N: float64(1 + r.Intn(2)), S: []string{"", "", "str"}[r.Intn(3)]}
 	case containers:
-		return c01Val{T: "map", S: "x"}
+		// {"x": 1}, {"1": 1} or {1: 1}
+		return c01Val{T: "map", S: []string{"x", "x", "1", "#1"}[r.Intn(4)]}
 	}
 	return c01Val{T: "str", S: "ab"}
 }
@@ -305,6 +313,21 @@ func c01Gen(r *simrt.RNG, tier string) interface{} {
 			}
 		}
 	}
+	if !p.ViaECAL && r.Bool(0.1) {
+		p.ReuseScopes = true
+		for c := range p.Clients {
+			for i := range p.Clients[c] {
+				e := &p.Clients[c][i]
+				e.Wait, e.DefScope, e.Edit = true, false, nil
+				if i > 0 && r.Bool(0.5) {
+					e.Edit = map[string]bool{c01GenScopePath(r): r.Bool(0.5)}
+				}
+			}
+		}
+	}
+	if r.Bool(0.004) {
+		p.Flood = 4000 + r.Intn(400)
+	}
 	if p.Reload != nil {
 		// events of kinds already seen before the reload (the pre-check cache must not survive it)
 		for i := range p.Reload.Clients[0] {
@@ -424,8 +447,14 @@ func (v c01Val) ecalText() string {
 	case "str", "regex":
 		return fmt.Sprintf("%q", v.S)
 	case "list":
+		if v.S == "str" {
+			return fmt.Sprintf("[\"%v\"]", v.N)
+		}
 		return fmt.Sprintf("[%v]", v.N)
 	case "map":
+		if v.S == "#1" {
+			return "{1: 1}"
+		}
 		return fmt.Sprintf("{%q: 1}", v.S)
 	}
 	return "null"
@@ -479,8 +508,14 @@ func (v c01Val) goValue() interface{} {
 	case "regex":
 		return regexp.MustCompile(v.S)
 	case "list":
+		if v.S == "str" {
+			return []interface{}{fmt.Sprint(v.N)}
+		}
 		return []interface{}{v.N}
 	case "map":
+		if v.S == "#1" {
+			return map[interface{}]interface{}{1.0: 1.0}
+		}
 		return map[interface{}]interface{}{v.S: 1.0}
 	}
 	return nil
@@ -711,7 +746,7 @@ func c01Run(p *c01Plan) {
 				in.childrenAdded = true
 				for ci := range in.ev.Children {
 					c := &in.ev.Children[ci]
-					c.Scope, c.DefScope, c.Edit = in.ev.Scope, in.ev.DefScope, in.ev.Edit
+					c.Scope, c.DefScope, c.Edit, c.eff = in.ev.Scope, in.ev.DefScope, in.ev.Edit, in.ev.eff
 					ch := newInst(c)
 					addEvent(ch, m.NewChildMonitor(c.PauseNs%3), false)
 				}
@@ -788,6 +823,9 @@ func c01Run(p *c01Plan) {
 			wg.Add(1)
 			simrt.Go(fmt.Sprintf("%sclient%d", tag, ci), func() {
 				defer wg.Done()
+				// reuse mode: this client's scope objects and what has been defined in them so far
+				objs := map[int]*engine.RuleScope{}
+				defs := map[int]map[string]bool{}
 				for i := range evs {
 					ev := &evs[i]
 					if ev.PauseNs > 0 {
@@ -795,7 +833,25 @@ func c01Run(p *c01Plan) {
 					}
 					in := newInst(ev)
 					var rm *engine.RootMonitor
-					if ev.DefScope {
+					if p.ReuseScopes && tag == "" {
+						if objs[ev.Scope] == nil {
+							objs[ev.Scope] = engine.NewRuleScope(p.Scopes[ev.Scope])
+							defs[ev.Scope] = map[string]bool{}
+							for k, v := range p.Scopes[ev.Scope] {
+								defs[ev.Scope][k] = v
+							}
+						}
+						for _, k := range keysOf(ev.Edit) {
+							objs[ev.Scope].Add(k, ev.Edit[k])
+							defs[ev.Scope][k] = ev.Edit[k]
+							simrt.Count("reach_scope_object_redefined_between_uses")
+						}
+						ev.eff = map[string]bool{}
+						for k, v := range defs[ev.Scope] {
+							ev.eff[k] = v
+						}
+						rm = proc.NewRootMonitor(nil, objs[ev.Scope])
+					} else if ev.DefScope {
 						rm = proc.NewRootMonitor(nil, nil)
 						for _, k := range keysOf(ev.Edit) {
 							rm.Scope().Add(k, ev.Edit[k])
@@ -813,6 +869,17 @@ func c01Run(p *c01Plan) {
 		for _, in := range insts {
 			if in.added {
 				c01CheckInst(in.view, in, "end of phase (quiescent)")
+			}
+		}
+	}
+	if p.Flood > 0 {
+		// a long history of distinct kinds nothing matches (whatever memo the pre-check keeps
+		// has seen thousands of kinds by the time the real events arrive)
+		simrt.Count("reach_kind_flood")
+		for i := 0; i < p.Flood; i++ {
+			e := engine.NewEvent("flood", []string{"zz", fmt.Sprint(i), "q", "q"}, map[interface{}]interface{}{})
+			if m, err := proc.AddEvent(e, proc.NewRootMonitor(nil, nil)); err != nil || m != nil {
+				simrt.Fail("oracle:firing", "firing/must-not-fire", "event of kind zz.%d.q.q (no rule has a pattern of four segments) was not skipped: %v %v", i, m, err)
 			}
 		}
 	}
